@@ -54,6 +54,7 @@ FINDING_EXCLUSIONS = {
     'ptrdiff': ('expr:pi1-pi2:unix64', lambda lang, plat: plat.ptrdiff_type != 'int'),
     'cxx-char-escape': ("expr:'\\101':unix64/c++", lambda lang, plat: lang == 'c++'),
     'bitfield': ('expr:st1.bf+1:unix64', lambda lang, plat: True),
+    'fcast-enum-deref': ('expr:E(*pi1):unix64/c++', lambda lang, plat: lang == 'c++'),
 }
 
 # Not findings: what a platform *file* cannot say.  wchar_t is `unsigned int` on arm/aarch64 but a platform file
@@ -209,7 +210,8 @@ def excl_for(lang, plat):
 
 # C07's shape exclusions are needed here too (nodes must correspond one to one)
 C07_SHAPE_EXCL = ['xor-incdec', 'stmt-name-comma', 'return-name-op-cast', 'sizeof-unparen', 'enum-cast-unary',
-                  'delete-prefix-op', 'new-less', 'andassign-decl-heuristic', 'paren-decl-heuristic']
+                  'delete-prefix-op', 'new-less', 'andassign-decl-heuristic', 'paren-decl-heuristic',
+                  'enumerator-angle-chain']
 
 
 def cpp_type(t, lang, plat):
@@ -300,7 +302,7 @@ def opdesc(n):
 def witnesses():
     """(platform, language, statement tree) — one per listed finding; replayed on every run through exactly the
     same pipeline as generated statements (finding patterns switched off)"""
-    from ..gen.exprgen import L, B, A, U, PO, CAST, Q, SZT, SZE, M
+    from ..gen.exprgen import L, B, A, U, PO, CAST, Q, SZT, SZE, M, Node
     W = [
         ('unix64', 'c', A('=', L('i3'), B('<', L('i1'), L('i2')))),
         ('unix64', 'c', A('=', L('i3'), B('&&', L('i1'), L('i2')))),
@@ -329,6 +331,7 @@ def witnesses():
         ('avr', 'c', A('=', L('l1'), L('0x10000'))),
         ('unix64', 'c', A('=', L('ll1'), L('037777777777'))),
         ('win32W', 'c', A('=', L('ll1'), L('037777777777'))),
+        ('unix64', 'c++', A('=', L('i1'), Node('fcast', op='E', ch=[U('*', L('pi1'))]))),
     ]
     return W
 
